@@ -275,6 +275,12 @@ def interrupt_rule(rep, f):
     for mod, ty in SOLVERS:
         fn = solve_fn(mod, ty)
         body = f.body(fn)
+        from protocol import answer_idiom_unknown
+        unk_ = answer_idiom_unknown(body)
+        if unk_:
+            rep.inconc("R-INTERRUPT-STOP", "R-INTERRUPT-STOP:%s" % fn, "the callback's answer is merged with other values before it is tested (the call is the value of a match / if arm): the answer typestate does not follow that", unk_[0].get("sp"))
+            n_sites += 2
+            continue
         m = InterruptMon(fn, body["body"])
         mon.Runner(m).run_fn(body)
         n_sites += len(m.sites)
@@ -369,7 +375,9 @@ def xout_rule(rep, f):
         calls_ = tast.calls(body["body"], SOLOUT)
 
         def hears(call):
-            ids = {l["pat"]["id"] for l in tast.find(body["body"], lambda z: z.get("k") == "Let" and z["pat"].get("k") == "PBind" and z.get("init") is call)}
+            # (also a binding whose initialiser yields the call's answer as the value of a match / if arm)
+            ids = {l["pat"]["id"] for l in tast.find(body["body"], lambda z: z.get("k") == "Let" and z["pat"].get("k") == "PBind" and z.get("init") is not None
+                                                     and (z["init"] is call or tast.contains(z["init"], lambda q: q is call)))}
             is_answer = lambda e: e is call or (isinstance(e, dict) and e.get("k") == "Path" and e.get("res") == "local" and e.get("id") in ids)
             stores = lambda blk: tast.contains(blk, lambda z: z.get("k") == "Assign" and z["l"].get("k") == "Path" and z["l"].get("id") in xids)
             for mm in tast.find(body["body"], lambda z: z.get("k") == "Match" and is_answer(z["scrut"])):
